@@ -28,8 +28,9 @@ void h_splice1(void)
 R = [(r'assert\(m_memoryManager == list\.m_memoryManager\);', '', 1),
      (r'\(void\) list;', '', (0, 1)),
      (r'Node\s*&\s*(\w+) = (\w+)\.node\(\);', r'Node* const \1 = \2;', 2),
-     (r'&(posNode|toInsertNode)\b', r'\1', None),
-     (r'\b(posNode|toInsertNode)\.', r'\1->', None)]
+     (r'Node\s*&\s*(\w+Node) = \*([^;]+);', r'Node* const \1 = \2;', (0, 3)),      # further references to nodes (a cached neighbour)
+     (r'&(\w+Node)\b', r'\1', None),
+     (r'\b(\w+Node)\.', r'\1->', None)]
 UNIT = Unit(
     name='c20_splice',
     props=['C20'],
